@@ -16,6 +16,7 @@ import (
 	"deps.dev/util/resolve"
 	"deps.dev/util/resolve/npm"
 	"verif/harness/ev"
+	"verif/harness/uni"
 )
 
 // Case is what replay files and witnesses hold.
@@ -70,7 +71,13 @@ func Run(r *ev.Run, replay string) {
 		return
 	} else {
 		for _, c := range wit {
-			runCase(r, e, c, false)
+			if c.Kind == "conc" && c.Conc != nil && c.Registry != nil {
+				st := newConcStats()
+				replayConc(c, 25, st)
+				fold(r, st)
+			} else {
+				runCase(r, e, c, false)
+			}
 			r.Count("witness_cases", 1)
 		}
 		e.close()
@@ -137,6 +144,31 @@ func Run(r *ev.Run, replay string) {
 	}
 }
 
+// stepBudget is the logical bound on client calls per resolution. Cutting a
+// resolution that would have ended later is sound: a cut on both sides is a
+// skip, and the two clients are asked the same questions as long as they give
+// the same answers.
+func stepBudget(u *uni.Universe) int64 {
+	if b := u.StepBudget(); b < 3000 {
+		return b
+	}
+	return 3000
+}
+
+var (
+	shrunkMu sync.Mutex
+	shrunkN  = map[string]int{}
+)
+
+// shrinkWorthwhile lets the first few violations of a class be shrunk (the run
+// record keeps three per class).
+func shrinkWorthwhile(class string) bool {
+	shrunkMu.Lock()
+	defer shrunkMu.Unlock()
+	shrunkN[class]++
+	return shrunkN[class] <= 3
+}
+
 var sampled sync.Map
 
 func dbgOnce(k string) bool { _, done := sampled.LoadOrStore(k, true); return done }
@@ -196,7 +228,7 @@ func runCase(r *ev.Run, e *env, c Case, shrink bool) {
 			seen[f.class] = true
 			cc := c
 			cc.Kind, cc.Class = "inv", f.class
-			if shrink {
+			if shrink && shrinkWorthwhile("inv:"+f.class) {
 				cc.Registry = shrinkRegistry(reg, [2]string{}, 300, func(s *Registry) bool {
 					e.serve(s, c.OrderSeed)
 					fs2, _, _ := safeInvariants(e, s, s.roots())
@@ -225,7 +257,7 @@ func runCase(r *ev.Run, e *env, c Case, shrink bool) {
 		return
 	}
 	u := Encode(reg)
-	budget := u.StepBudget()
+	budget := stepBudget(u)
 	lc := u.Client(nil)
 	ac := resolve.NewAPIClient(e.cli)
 	roots := reg.roots()
@@ -237,7 +269,7 @@ func runCase(r *ev.Run, e *env, c Case, shrink bool) {
 		if v == nil {
 			continue
 		}
-		d := differential(ac, lc, budget, npmVK(root[0], root[1], resolve.Concrete))
+		d := differential(reg, ac, lc, budget, npmVK(root[0], root[1], resolve.Concrete))
 		r.Eval(1)
 		r.Count("diff:resolutions", 1)
 		if os.Getenv("C18_DEBUG") != "" {
@@ -280,15 +312,15 @@ func runCase(r *ev.Run, e *env, c Case, shrink bool) {
 		cc := c
 		cc.Kind, cc.Root, cc.Class = "diff", root, d.class
 		what := d.what
-		if shrink {
+		if shrink && shrinkWorthwhile(d.class) {
 			cc.Registry = shrinkRegistry(reg, root, 250, func(s *Registry) bool {
 				e.serve(s, c.OrderSeed)
 				su := Encode(s)
-				return differential(resolve.NewAPIClient(e.cli), su.Client(nil), su.StepBudget(), npmVK(root[0], root[1], resolve.Concrete)).class == d.class
+				return differential(s, resolve.NewAPIClient(e.cli), su.Client(nil), stepBudget(su), npmVK(root[0], root[1], resolve.Concrete)).class == d.class
 			})
 			e.serve(cc.Registry, c.OrderSeed)
 			su := Encode(cc.Registry)
-			if d2 := differential(resolve.NewAPIClient(e.cli), su.Client(nil), su.StepBudget(), npmVK(root[0], root[1], resolve.Concrete)); d2.class == d.class {
+			if d2 := differential(cc.Registry, resolve.NewAPIClient(e.cli), su.Client(nil), stepBudget(su), npmVK(root[0], root[1], resolve.Concrete)); d2.class == d.class {
 				what = d2.what
 			}
 			e.serve(reg, c.OrderSeed)
